@@ -280,11 +280,11 @@ class CapTable(object):
             for u in used:
                 if not u:
                     continue
-                for pre in (IMM, RO, b""):
-                    if u.startswith(pre):
-                        want.add(u[len(pre):])
-                        break
                 want.add(u)
+                body = u
+                while body.startswith(IMM) or body.startswith(RO):      # every suffix left by removing alleged marks
+                    body = body[len(IMM):] if body.startswith(IMM) else body[len(RO):]
+                    want.add(body)
             grow = True
             while grow:
                 grow = False
@@ -389,6 +389,24 @@ def gen_contradictory_caps(r, tbl):
     else:
         w, ro = pre + secret, pre + secret
     return w, ro, "contradictory:%s:%s" % (pre.decode().strip("."), shape), secret
+
+
+def gen_multi_prefixed_caps(r, tbl):
+    """A WRITE-capable cap wrapped in the alleged-read-only mark more than once (ro.ro.X, ro.ro.ro.X), in either slot.  uri.from_string removes one mark and sees an unknown cap, so the node maker accepts it;
+    the packer removes one mark, and the reader of the directory must NOT end up with the bare write cap.
+    Returns (w, ro, label, bare_write_cap)."""
+    if r.random() < 0.75:
+        cw, cr = tbl.add_pair(gen_mutable_pair(r, r.choice(["SSK", "MDMF", "DIR2", "DIR2-MDMF"])))
+        secret = cw.s
+    else:
+        secret = tbl.add(Cap(b"x-tahoe-future-test-writeable:" + b32(rb(r, 10)), "futw", label="future-test-writeable")).s
+    wrapped = RO * r.choice([2, 2, 3]) + secret
+    shape = r.choice(["ro-slot", "ro-slot", "rw-slot"])
+    if shape == "ro-slot":
+        w, ro = None, wrapped
+    else:
+        w, ro = wrapped, None
+    return w, ro, "multi-prefixed:" + shape, secret
 
 
 def gen_outside_caps(r, tbl):
